@@ -445,7 +445,7 @@ func deleteRecords(freeBatch []*types.Block, maxFileSize uint32, basePath string
 
 			file, err = os.OpenFile(primaryFileName(basePath, fileNum), os.O_RDWR, 0644)
 			if err != nil {
-				log.Errorw("Cannot open primary file", "file", file.Name(), "err", err)
+				log.Errorw("Cannot open primary file", "file", primaryFileName(basePath, fileNum), "err", err)
 				continue
 			}
 			fi, err := file.Stat()
